@@ -33,7 +33,7 @@ asn_TYPE_operation_t asn_OP_UTCTime = {
 	UTCTime_print,
 	UTCTime_compare,
 	OCTET_STRING_decode_ber,    /* Implemented in terms of OCTET STRING */
-	OCTET_STRING_encode_der,    /* Implemented in terms of OCTET STRING */
+	UTCTime_encode_der,         /* Canonical form, X.690 #11.8 */
 	OCTET_STRING_decode_xer_utf8,
 	UTCTime_encode_xer,
 #ifdef	ASN_DISABLE_OER_SUPPORT
@@ -92,6 +92,37 @@ UTCTime_constraint(const asn_TYPE_descriptor_t *td, const void *sptr,
 
 #ifndef	ASN___INTERNAL_TEST_MODE
 
+/*
+ * DER: the time is written as YYMMDDhhmmssZ (X.690 #11.8), the way
+ * GeneralizedTime_encode_der() writes a GeneralizedTime (#11.7).
+ * A text which is not recognized as a time is encoded as it is stored.
+ */
+asn_enc_rval_t
+UTCTime_encode_der(const asn_TYPE_descriptor_t *td, const void *sptr,
+                   int tag_mode, ber_tlv_tag_t tag,
+                   asn_app_consume_bytes_f *cb, void *app_key) {
+	asn_enc_rval_t erval;
+	UTCTime_t *ut;
+	struct tm tm;
+
+	errno = EPERM;
+	if(asn_UT2time((const UTCTime_t *)sptr, &tm, 1) == -1
+			&& errno != EPERM)
+		return OCTET_STRING_encode_der(td, sptr, tag_mode, tag,
+			cb, app_key);
+
+	ut = asn_time2UT(0, &tm, 1);	/* Save time canonically */
+	if(!ut) ASN__ENCODE_FAILED;
+
+	erval = OCTET_STRING_encode_der(td, ut, tag_mode, tag, cb, app_key);
+	if(erval.encoded == -1 && erval.structure_ptr == ut)
+		erval.structure_ptr = sptr;
+
+	OCTET_STRING_free(&asn_DEF_UTCTime, ut, 0);
+
+	return erval;
+}
+
 asn_enc_rval_t
 UTCTime_encode_xer(const asn_TYPE_descriptor_t *td, const void *sptr,
                    int ilevel, enum xer_encoder_flags_e flags,
@@ -110,7 +141,7 @@ UTCTime_encode_xer(const asn_TYPE_descriptor_t *td, const void *sptr,
 		ut = asn_time2UT(0, &tm, 1);
 		if(!ut) ASN__ENCODE_FAILED;
 
-		rv = OCTET_STRING_encode_xer_utf8(td, sptr, ilevel, flags,
+		rv = OCTET_STRING_encode_xer_utf8(td, ut, ilevel, flags,
 			cb, app_key);
 		OCTET_STRING_free(&asn_DEF_UTCTime, ut, 0);
 		return rv;
